@@ -95,7 +95,7 @@ def referenced(ev):
 
 class Deletion(Sub):
     name = "deletion"
-    examples = {"quick": 2400, "thorough": 60000}
+    examples = {"quick": 2400, "thorough": 19200}
     shards = {"quick": 12, "thorough": 16}
     rule = RULE
 
